@@ -6,7 +6,7 @@ import datetime
 import decimal
 
 from . import core, impl, values
-from .core import cZ, clist, copt, cbool, cpair, cstr
+from .core import cZ, clist, cbool, cpair, cstr
 from .shrink import ddmin_batch
 
 from beancount.core.amount import Amount
@@ -28,7 +28,7 @@ ASSUMPTIONS = [
     'with the digits the harness fed to the DisplayContext (currency unknown to the context: number unchanged); '
     'quantized coefficients stay below the digits+12 precision limit of DisplayContext.quantize',
     'an Inventory is modelled by the list of its positions (dict values); currencies() is a set whose iteration order is '
-    'hash dependent: proved irrelevant (the census sort key (count, currency) is injective on distinct currencies)',
+    'hash dependent: proved irrelevant (C17_census_order_irrelevant)',
     'str comparison of currency names = lexicographic comparison of code points',
 ]
 
@@ -203,6 +203,8 @@ def dtype_code(t):
 
 
 def run_impl(case):
+    if 'ledger' in case:
+        return ledger_run_impl(case)
     desc, rows, dformat = build(case)
     try:
         otypes, orows = bq_numberify.numberify_results(desc, rows, dformat)
@@ -250,17 +252,128 @@ def ccell(v):
     return f'(CPlain {values.to_coq(v)})'
 
 
-def model_expr(case):
-    desc, rows, _ = build(case)
-    cols = clist([cpair(cstr(n), DT_COQ.get(k) or f'(DPlain {PLAIN_CODE[PLAIN[k]]})') for n, k in case['cols']])
+def model_expr_raw(cols, rows, digits):
+    """cols: [(name, kind)], rows: python objects as passed to numberify_results, digits: None | [(cur, n)]"""
+    ccols = clist([cpair(cstr(n), DT_COQ.get(k) or f'(DPlain {PLAIN_CODE[PLAIN[k]]})') for n, k in cols])
     crow = clist([clist([ccell(v) for v in r]) for r in rows])
-    fmt = 'None' if case['fmt'] is None else \
-        '(Some ' + clist([cpair(cstr(c), cZ(d)) for c, d in fmt_digits(case['fmt'])]) + ')'
-    return f'numberify_out {fmt} {cols} {crow}'
+    fmt = 'None' if digits is None else '(Some ' + clist([cpair(cstr(c), cZ(d)) for c, d in digits]) + ')'
+    return f'numberify_out {fmt} {ccols} {crow}'
+
+
+def model_expr(case):
+    if 'ledger' in case:
+        return ledger_model_expr(case)
+    _, rows, _ = build(case)
+    return model_expr_raw(case['cols'], rows, None if case['fmt'] is None else fmt_digits(case['fmt']))
 
 
 def model_many(cases, tag='c17'):
     return core.coq_eval(tag, ['Base.PyValue', 'Model.Numberify'], [model_expr(c) for c in cases], shard=150)
+
+
+# ---------------------------------------------------------------- end to end: beanquery.query.run_query(numberify=True)
+LEDGER_DIGITS = {'USD': 2, 'EUR': 2, 'JPY': 0, 'AAPL': 0, 'GOOG': 0}
+QUERIES = [
+    'SELECT account, sum(position) AS s GROUP BY account',
+    'SELECT date, account, position, balance',
+    'SELECT account, units(sum(position)) AS u, cost(sum(position)) AS c GROUP BY 1',
+    'SELECT account, filter_currency(balance, cost_currency) AS b, weight',
+    'SELECT year, sum(weight) AS w, count(*) AS n GROUP BY year ORDER BY year',
+    'SELECT account, number, units(position) AS u, cost(position) AS c WHERE currency != "USD"',
+    'SELECT payee, first(balance) AS f, last(balance) AS l GROUP BY payee',
+]
+
+
+def gen_ledger(rng):
+    accts = ['Assets:Cash', 'Assets:Inv', 'Equity:Open', 'Expenses:Food', 'Income:Job']
+    lines = [f'2019-01-01 open {a}' for a in accts]
+    # four 2-digit USD numbers first, so that the most common USD precision stays 2 when the
+    # odd 4-digit transaction below is present (its numbers must then come out quantized)
+    lines += ['2019-06-01 * "p0" "seed"', '  Assets:Cash  100.00 USD', '  Equity:Open  -100.00 USD',
+              '2019-06-02 * "p1" "seed"', '  Assets:Cash  1.50 USD', '  Income:Job  -1.50 USD']
+    if rng.random() < 0.6:
+        n = D(rng.randint(1, 99999)).scaleb(-4)
+        lines += ['2019-07-01 * "p2" "odd precision"', f'  Expenses:Food  {n} USD', f'  Assets:Cash  {-n} USD']
+    for k in range(rng.randint(1, 6)):
+        date = datetime.date(2020, 1, 1) + datetime.timedelta(days=40 * k + rng.randint(0, 30))
+        kind = rng.random()
+        a, b = rng.sample(accts, 2)
+        lines.append(f'{date.isoformat()} * "p{rng.randint(0, 2)}" "t{k}"')
+        if kind < 0.4:
+            cur = rng.choice(['USD', 'EUR', 'JPY'])
+            d = LEDGER_DIGITS[cur]
+            n = D(rng.randint(1, 99999)).scaleb(-d)
+            lines += [f'  {a}  {n} {cur}', f'  {b}  {-n} {cur}']
+        elif kind < 0.75:
+            stock = rng.choice(['AAPL', 'GOOG'])
+            units = rng.randint(1, 9)
+            price = D(rng.randint(100, 9999)).scaleb(-2)
+            lines += [f'  Assets:Inv  {units} {stock} {{{price} USD}}', f'  Assets:Cash  {-(units * price)} USD']
+        else:
+            n1 = D(rng.randint(1, 9999)).scaleb(-2)
+            n2 = D(rng.randint(1, 99999))
+            lines += [f'  {a}  {n1} USD', f'  {a}  {n2} JPY', f'  {b}  {-n1} USD', f'  {b}  {-n2} JPY']
+    return '\n'.join(lines) + '\n'
+
+
+def gen_ledger_case(rng):
+    return {'ledger': gen_ledger(rng), 'query': rng.choice(QUERIES)}
+
+
+_KIND_OF = {Amount: 'Amount', Position: 'Position', Inventory: 'Inventory', int: 'int', D: 'decimal', str: 'str',
+            datetime.date: 'date', bool: 'bool'}
+
+
+def _ledger_load(case):
+    from beancount import loader
+    entries, errors, options = loader.load_string(case['ledger'])
+    assert not errors, errors
+    return entries, options
+
+
+def ledger_run_impl(case):
+    from beanquery import query as bq_query
+    entries, options = _ledger_load(case)
+    try:
+        otypes, orows = bq_query.run_query(entries, options, case['query'], numberify=True)
+    except Exception as e:  # noqa: BLE001
+        return ['exception', type(e).__name__, str(e)[:200]]
+    return [[[[[ord(ch) for ch in c.name], dtype_code(c.datatype)] for c in otypes],
+             [[canon_cell(v) for v in r] for r in orows]]]
+
+
+def ledger_model_expr(case):
+    """Model applied to the un-numberified result of the same query; digits as written in the ledger."""
+    from beanquery import query as bq_query
+    entries, options = _ledger_load(case)
+    types, rows = bq_query.run_query(entries, options, case['query'], numberify=False)
+    cols = [(c.name, _KIND_OF[c.datatype]) for c in types]
+    used = [(c, n) for c, n in LEDGER_DIGITS.items() if f' {c}' in case['ledger']]
+    return model_expr_raw(cols, [list(r) for r in rows], used)
+
+
+# ---------------------------------------------------------------- exhaustive small family
+def exhaustive_cases():
+    """One amount-like column, 3 rows, every assignment of a small cell alphabet (census counts
+    0..3 per currency, all tie patterns among the names US < USD < USDX and EUR), with and
+    without a formatter."""
+    import itertools
+    out = []
+    amt = [None, ['A', '1', 'USD'], ['A', '0', 'USD'], ['A', '2.5', 'US'], ['A', '-1', 'EUR'], ['A', '1', 'USDX']]
+    pos = [None, ['P', '1', 'USD', None], ['P', '0', 'USD', None], ['P', '2.5', 'US', ['10', 'USD', '2020-01-01']],
+           ['P', '-1', 'EUR', None], ['P', '1', 'USDX', None]]
+    c1, c2 = ['10', 'USD', '2020-01-01'], ['20', 'USD', '2020-01-02']
+    inv = [None, ['I', [], False], ['I', [['1', 'USD', None]], False], ['I', [['2.5', 'US', None]], False],
+           ['I', [['1', 'USD', None], ['2', 'US', c1]], False], ['I', [['1', 'US', c1], ['2', 'US', c2]], False],
+           ['I', [['5', 'EUR', c1], ['-5', 'EUR', c2], ['1', 'USDX', None]], False],
+           ['I', [['0', 'USD', None], ['1', 'EUR', None]], True]]
+    fmts = [None, {'table': [('USD', [2], False), ('US', [0], True)], 'precision': 'MOST_COMMON'}]
+    for kind, alphabet in (('Amount', amt), ('Position', pos), ('Inventory', inv)):
+        for cells in itertools.product(alphabet, repeat=3):
+            for fmt in fmts:
+                out.append({'cols': [('n', 'int'), ('x', kind)],
+                            'rows': [[['v', i], c] for i, c in enumerate(cells)], 'fmt': fmt})
+    return out
 
 
 # ---------------------------------------------------------------- shrinking
@@ -271,6 +384,9 @@ def _with(case, **kw):
 
 
 def shrink(case):
+    if 'ledger' in case:
+        return case
+
     def fails_many(cs):
         ms = model_many(cs, tag='c17s')
         return [run_impl(c) != m for c, m in zip(cs, ms)]
@@ -304,6 +420,8 @@ def shrink(case):
 
 
 def signature(case):
+    if 'ledger' in case:
+        return 'numberify-run_query:' + case['query'] + ' ledger=' + repr(case['ledger'])
     return 'numberify:cols=' + repr([tuple(c) for c in case['cols']]) + ' rows=' + repr(case['rows']) + \
         ' fmt=' + repr(case['fmt'])
 
@@ -332,18 +450,18 @@ CORPUS = [
 ]
 
 
-def classify(case):
-    kinds = {k for _, k in case['cols']}
-    return kinds
-
-
 def run(tier, rng):
     n = 2000 if tier == 'quick' else 30000
-    cases = [dict(c) for c in CORPUS] + [gen_case(rng) for _ in range(n)]
+    nq = 40 if tier == 'quick' else 400
+    ex = exhaustive_cases()
+    cases = [dict(c) for c in CORPUS] + [gen_case(rng) for _ in range(n)] + ex
     for c in cases:
         c['fmt'] = _normalise_fmt(c['fmt'])
-    impl_out = core.pmap(run_impl, cases)
-    model_out = model_many(cases)
+    ledger_cases = [gen_ledger_case(rng) for _ in range(nq)]
+    impl_out = core.pmap(run_impl, cases) + core.pmap(run_impl, ledger_cases)
+    model_out = model_many(cases + ledger_cases)
+    ntable = len(cases)
+    cases = cases + ledger_cases
 
     hist = {'column_kinds': {}, 'nrows': {}, 'ncols': {}, 'currencies_per_amountlike_column': {}, 'lots_per_inventory': {},
             'formatter': {'none': 0, 'MOST_COMMON': 0, 'MAXIMUM': 0},
@@ -352,7 +470,12 @@ def run(tier, rng):
             'zero_amounts': 0, 'zero_positions': 0, 'census_count_ties': 0, 'output_null_cells': 0, 'output_decimal_cells': 0,
             'cells_changed_by_quantize': 0, 'impl_exceptions': {}}
     distinct, nontrivial = set(), 0
-    for c, i in zip(cases, impl_out):
+    hist['run_query_numberify'] = {'cases': len(ledger_cases), 'by_query': {}, 'raised': 0}
+    for c, i in zip(cases[ntable:], impl_out[ntable:]):
+        h = hist['run_query_numberify']
+        h['by_query'][c['query']] = h['by_query'].get(c['query'], 0) + 1
+        h['raised'] += (i and i[0] == 'exception')
+    for c, i in zip(cases[:ntable], impl_out[:ntable]):
         key = signature(c)
         if key in distinct:
             continue
@@ -403,7 +526,7 @@ def run(tier, rng):
             if amountlike and rows:
                 nontrivial += 1
     # how often does the formatter actually change a number (compare with the unformatted run)
-    fmt_cases = [c for c in cases[:400] if c['fmt'] is not None]
+    fmt_cases = [c for c in cases[:400] if 'ledger' not in c and c['fmt'] is not None]
     for c in fmt_cases:
         a, b = run_impl(c), run_impl(_with(c, fmt=None))
         if a != b:
@@ -420,7 +543,8 @@ def run(tier, rng):
             si, sm = run_impl(small), model_many([small], tag='c17s')[0]
             violations.append(core.Violation(
                 'numberify-differs',
-                f'numberify_results on columns {small["cols"]} rows {small["rows"]} formatter {small["fmt"]}: '
+                (f'run_query(numberify=True) {small["query"]!r} on ledger {small["ledger"]!r}: ' if 'ledger' in small else
+                 f'numberify_results on columns {small["cols"]} rows {small["rows"]} formatter {small["fmt"]}: ') +
                 f'implementation {describe(si)} ; model (units per currency) {describe(sm)}',
                 {'case': small, 'impl': si, 'model': sm}, signature=sig))
             if len(seen) >= 3:
@@ -432,11 +556,14 @@ def run(tier, rng):
                 'probability 0/0.1/0.25/0.5, inventories of 0-6 lots built by add_amount (repeated currencies with different/equal '
                 'costs, cancelling lots) or 15% straight from a dict (zero lots kept), numbers from a pool with zeros, -0, exponents '
                 '>0, half-way cases, or random; 60% with a real DisplayContext formatter (per currency: unknown / update()s / fixed '
-                'precision, MOST_COMMON or MAXIMUM) ; plus a fixed corpus. Compared: output names, datatypes, every cell (Decimal by '
+                'precision, MOST_COMMON or MAXIMUM) ; plus a fixed corpus; plus EXHAUSTIVELY every 3-row table over a cell alphabet of 6 '
+                '(Amount, Position) / 8 (Inventory) cells x {no formatter, formatter} (1888 tables, all census count/tie patterns '
+                'over US<USD<USDX, EUR); plus end-to-end: beanquery.query.run_query(numberify=True) on generated ledgers x 7 '
+                'queries against the model applied to the un-numberified result with the digits written in the ledger. Compared: output names, datatypes, every cell (Decimal by '
                 'as_tuple). non-trivial = distinct cases with >=1 row and >=1 amount-like column that did not raise',
-        'samples': [signature(c)[:400] for c in cases[len(CORPUS):len(CORPUS) + 4]],
+        'samples': [signature(c)[:400] for c in cases[len(CORPUS):len(CORPUS) + 4]] + [signature(c)[:400] for c in ledger_cases[:1]],
         'traces_validated_against_impl': len(cases),
-        'histograms': hist, 'exhaustive': False,
+        'histograms': hist, 'exhaustive': True, 'exhaustive_family_size': len(ex),
     }
     return {'coverage': cov, 'violations': violations}
 
@@ -453,6 +580,8 @@ def describe(res):
 
 def replay(rec):
     c = rec['case']
+    if 'ledger' in c:
+        return run_impl(c) == model_many([c], tag='c17s')[0]
     c['cols'] = [tuple(x) for x in c['cols']]
     if c['fmt'] is not None:
         c['fmt']['table'] = [tuple(x) for x in c['fmt']['table']]
